@@ -167,22 +167,22 @@ func (x *FnCtx) inline(fr *Frame, st *State, callee *ssa.Function, args []Value,
 	}
 	var es []edge
 	var results [][]Value
+	var retPCs []*Term
 	for _, r := range rets {
 		es = append(es, edge{nil, r.st})
 		results = append(results, r.results)
+		retPCs = append(retPCs, r.st.pc) // before st (possibly one of the return states) is overwritten
 	}
 	merged := x.mergeStates(es)
 	*st = *merged
 	n := callee.Signature.Results().Len()
 	out := make(TupleV, n)
 	for k := 0; k < n; k++ {
-		var conds []*Term
 		var vals []Value
-		for i, r := range rets {
-			conds = append(conds, r.st.pc)
+		for i := range rets {
 			vals = append(vals, results[i][k])
 		}
-		out[k] = x.mergeValues(conds, vals)
+		out[k] = x.mergeValues(retPCs, vals)
 	}
 	switch n {
 	case 0:
